@@ -23,7 +23,7 @@ Theorem C02_partial_history_invariant : forall evs h,
   let h' := hexec0 h evs in
   NoDup (h_ghost h') /\
   match h_lock h' with
-  | LValid L => 1 <= L <= u32max /\ forall g, In g (h_ghost h') -> g < L
+  | LValid L => L <= u32max /\ forall g, In g (h_ghost h') -> g < L
   | LAbsent => h_ghost h' = []
   | LCorrupt => False
   end.
@@ -34,7 +34,7 @@ Check C02_partial_history_invariant : forall evs h,
   let h' := hexec0 h evs in
   NoDup (h_ghost h') /\
   match h_lock h' with
-  | LValid L => 1 <= L <= u32max /\ forall g, In g (h_ghost h') -> g < L
+  | LValid L => L <= u32max /\ forall g, In g (h_ghost h') -> g < L
   | LAbsent => h_ghost h' = []
   | LCorrupt => False
   end.
@@ -64,7 +64,7 @@ Theorem C02_history_invariant : forall evs h,
   let h' := hexec0 h evs in
   NoDup (h_ghost h') /\
   match h_lock h' with
-  | LValid L => 1 <= L <= u32max /\ forall g, In g (h_ghost h') -> g < L
+  | LValid L => L <= u32max /\ forall g, In g (h_ghost h') -> g < L
   | LAbsent => h_ghost h' = []
   | LCorrupt => False
   end.
